@@ -43,13 +43,33 @@ def _worker_init(modname, funcname):
     _RUN_CASE = getattr(mod, funcname)
 
 
+CASE_WALL_LIMIT_S = 900.0     # no single case of any check needs more than a few seconds; a case that is still running
+                              # after this long is reported as "could not be judged" (exit 2) instead of hanging the check
+
+
+class _CaseTimeout(BaseException):
+    pass
+
+
+def _on_alarm(signum, frm):
+    raise _CaseTimeout()
+
+
 def _worker(case):
+    import signal
     env.reset_between_cases()
     t0 = time.process_time()
+    old = signal.signal(signal.SIGALRM, _on_alarm)
+    signal.setitimer(signal.ITIMER_REAL, CASE_WALL_LIMIT_S)
     try:
         out = _RUN_CASE(case)
+    except _CaseTimeout:
+        out = {'harness_error': 'case did not finish within %.0f s' % CASE_WALL_LIMIT_S}
     except Exception as e:  # an oracle crash is a harness error, never a verdict
         out = {'harness_error': '%s: %s\n%s' % (type(e).__name__, e, traceback.format_exc()[-1500:])}
+    finally:
+        signal.setitimer(signal.ITIMER_REAL, 0)
+        signal.signal(signal.SIGALRM, old)
     out['cpu'] = time.process_time() - t0
     return out
 
